@@ -177,6 +177,8 @@ var vL2Commands = [][]string{
 	{"SINTERCARD", "$I", "$K", "k4"}, {"SINTERCARD", "2", "$K", "k4", "LIMIT", "$I"},
 	{"BITFIELD", "$K", "GET", "u8", "$I"}, {"BITFIELD", "$K", "GET", "i64", "$I"}, {"BITFIELD", "$K", "INCRBY", "u63", "$I", "$I"},
 	{"BITFIELD_RO", "$K", "GET", "i5", "$I"}, {"BITPOS", "$K", "0", "$I"}, {"BITPOS", "$K", "1", "$I", "$I", "BIT"},
+	{"TOUCH", "$K", "k2", "k5"}, {"UNLINK", "$K", "k2"}, {"UNLINK", "k5", "$K"}, {"SMISMEMBER", "$K", "m1", "zz"}, {"HMGET", "$K", "f1", "f2"},
+	{"INCRBYFLOAT", "$K", "$F"}, {"HINCRBYFLOAT", "$K", "f1", "$F"}, {"HINCRBYFLOAT", "$K", "f2", "$F"}, {"HINCRBYFLOAT", "$K", "n1", "$F"},
 	{"LINSERT", "$K", "AFTER", "$S", "$S"}, {"SORT", "$K", "LIMIT", "$I", "$I"}, {"SORT", "$K", "LIMIT", "$I", "$I", "ALPHA", "STORE", "k5"},
 }
 
@@ -194,12 +196,16 @@ var vL2TimeValues = []string{"-9223372036854775808", "-1", "0", "1", "100", "410
 
 var vL2Keys = []string{"k", "k2", "k3", "k4", "k5"}
 
+// floating-point arguments: ordinary, extreme and non-finite values
+var vL2Floats = []string{"1.5", "-2", "inf", "-inf", "nan", "1e308", "-1e308", "1e-320", "0x1p3", "1e400", "", "1.5x"}
+
 const (
 	monG2 = 1 << iota
 	monG34
 	monG5
 	monG8
 	monG9 // every change of a key stamps it with a version never used before
+	monG7 // store memory only touched inside one guarded section (engine monitor)
 )
 
 // vL2 runs one template on one key state with the given monitors.
@@ -233,6 +239,8 @@ func vL2(mon int) {
 			args[i] = "k"
 		case "$S":
 			args[i] = vStringN("s", 1)
+		case "$F":
+			args[i] = vL2Floats[vChoice("f", len(vL2Floats))]
 		case "$I":
 			if vL2TimeArg[t[0]] || (t[0] == "SET" && i > 2) || (t[0] == "GETEX" && i > 1) || (t[0] == "RESTORE" && i == 2) {
 				// time arithmetic on a fully symbolic integer is the subject of
